@@ -8,14 +8,15 @@
 EXTENDS Naturals, Sequences, FiniteSets, TLC, Json
 
 \* one section (a mapping object type -> operation -> permission)
-SectionShapes == {"absent", "ok", "empty", "list", "string", "number", "null",
+\* "zero", "false", "emptystr", "emptylist", "null": values of the wrong type that are FALSY in the implementation language
+SectionShapes == {"absent", "ok", "empty", "list", "string", "number", "null", "zero", "false", "emptystr", "emptylist",
                   "badtype", "ops_list", "ops_string", "ops_number", "ops_null", "badop", "badperm", "perm_number",
                   "perm_list", "perm_object", "perm_null", "perm_bool"}
-SectionValid(s) == s \in {"absent", "ok", "empty", "null"}
+SectionValid(s) == s \in {"absent", "ok", "empty"}
 
 \* one policy
 PolicyShapes == {"sections", "legacy", "empty", "list", "string", "number", "unknown_section", "mixed"}
-GroupShapes == {"absent", "ok", "empty", "list", "string", "group_section_bad", "null"}
+GroupShapes == {"absent", "ok", "empty", "list", "string", "group_section_bad", "null", "zero", "false", "emptystr", "emptylist"}
 
 LegacyShapes == {"ok", "badtype", "ops_list", "ops_string", "ops_number", "ops_null", "badop", "badperm", "perm_number",
                  "perm_list", "perm_object", "perm_null", "perm_bool"}
@@ -24,7 +25,7 @@ Policies ==
     \cup [shape : {"legacy"}, preset : LegacyShapes, groups : {"absent"}]
     \cup [shape : PolicyShapes \ {"sections", "legacy"}, preset : {"absent"}, groups : {"absent"}]
 
-GroupsValid(g) == g \in {"absent", "ok", "empty", "null"}
+GroupsValid(g) == g \in {"absent", "ok", "empty"}
 
 PolicyValid(p) ==
     CASE p.shape = "sections" -> SectionValid(p.preset) /\ GroupsValid(p.groups) /\ (p.preset # "absent" \/ p.groups # "absent")
